@@ -23,7 +23,7 @@ def element(z):
     return el
 
 
-def quant(x, bits=10):
+def quant(x, bits=8):
     """round to `bits` significant bits (keeps the exact rationals handed to Coq small; the values are
     still arbitrary positive numbers on a grid of ~0.1% relative spacing)"""
     import math
@@ -153,10 +153,16 @@ def property_at_point(pt, tol):
 REPS = ["scalar", "array1d", "array2d", "fun1d", "fun1d_scalar", "fun2d", "mixed1d", "interp1d", "interp2d", "eqmap"]
 
 
-def gen_case(rng, idx, rep, stream, z=None):
+class NonFinite(Exception):
+    pass
+
+
+def gen_case(rng, idx, rep, stream, z=None, force_donor=False):
     z = z or rng.choice([1, 1, 2, 2, 3, 4, 5, 6, 6, 7, 8, 9, 10, 10, 11, 12, 13, 14, 15, 16, 17, 18, 18])
     realistic = rng.random() < 0.7
-    donor_mode = rng.choice(["none", "none", "donor", "donor", "donor", "donor_zero", "donor_nodens"])
+    donor_mode = rng.choice(["none"] * 3 + ["donor"] * 8 + ["donor_zero", "donor_nodens"])
+    if force_donor:
+        donor_mode = "donor"
     donor = None
     if donor_mode != "none":
         dz = rng.choice([1, 1, 1, 2, 3])
@@ -324,10 +330,14 @@ def run_case(ib, rec, case, rng_mod):
         """{charge: array} -> per point list over charge"""
         arrs = [np.asarray(dct[c], dtype=float).reshape(-1) for c in range(z + 1)]
         assert len(dct) == z + 1 and all(a.size == npts for a in arrs), (len(dct), [a.shape for a in arrs])
+        if not all(np.all(np.isfinite(a)) for a in arrs):
+            raise NonFinite("non-finite value in %s" % [a.tolist() for a in arrs][:3])
         return [[float(a[k]) for a in arrs] for k in range(npts)]
 
     def add(kind, src, per_point, **extra):
         for k in range(npts):
+            if not all(np.isfinite(v) for v in per_point[k]):
+                raise NonFinite("non-finite value from %s: %s" % (src, per_point[k][:4]))
             o = {"kind": kind, "src": src, "values": per_point[k]}
             for key, val in extra.items():
                 o[key] = val[k]
